@@ -34,7 +34,7 @@ theorem completion_matches (st : Settings) (lower : List Char → List Char) (ca
     c.cand ∈ cands ∧ c.fuzzy = fuzzy ∧
     (fuzzy = false → foldCase st lower like <+: foldCase st lower c.cand.str) ∧
     (fuzzy = true → (foldCase st lower like).Sublist (foldCase st lower c.cand.str)) := by
-  have y := filterLoop_yielded _ _ _ _ _ _ _ _ h
+  have y := filterLoop_yielded _ _ _ _ _ _ _ _ _ h
   refine ⟨y.mem, by rw [y.eq]; rfl, ?_, ?_⟩
   · intro hf
     have := y.isMatch
@@ -68,7 +68,7 @@ theorem complete_is_missing_suffix (st : Settings) (c : Comp) (suf : List Char)
 theorem fuzzy_complete_none (st : Settings) (lower : List Char → List Char) (cands : List Cand)
     (like : List Char) (imported : List (List Char)) (c : Comp)
     (h : c ∈ filterNames st lower cands like true imported) : c.complete st = none := by
-  have y := filterLoop_yielded _ _ _ _ _ _ _ _ h
+  have y := filterLoop_yielded _ _ _ _ _ _ _ _ _ h
   rw [y.eq]; simp [Comp.complete, mkComp]
 
 /-- Non-fuzzy, case-sensitive: the first `prefix_length` characters of the name are the
@@ -80,33 +80,39 @@ theorem prefix_is_fragment_case_sensitive (st : Settings) (lower : List Char →
     (h : c ∈ filterNames st lower cands like false imported)
     (hpub : c.cand.str <+: c.cand.pub) :
     c.prefixLength = like.length ∧ c.name.take c.prefixLength = like := by
-  have y := filterLoop_yielded _ _ _ _ _ _ _ _ h
+  have y := filterLoop_yielded _ _ _ _ _ _ _ _ _ h
   have hm := y.isMatch
   simp only [foldCase, hci, Bool.false_eq_true, if_false, pmatch, startMatch_iff_prefix] at hm
-  have hl : c.prefixLength = like.length := by
-    rw [y.eq]; simp [Comp.prefixLength, mkComp, foldCase, hci]
+  have hl : c.prefixLength = like.length := by rw [y.eq]; rfl
   refine ⟨hl, ?_⟩
   rw [hl]
   have : like <+: c.cand.pub := List.IsPrefix.trans hm hpub
   exact List.prefix_iff_eq_take.mp this |>.symm
 
-/-- Non-fuzzy, case-insensitive (the default).  FULL statement (any `lower`) is false —
-see `prefix_length_wrong_when_lower_changes_length` below; the hypothesis `CharwiseLower`
-is forced by the code computing `len(like_name.lower())`. -/
+/-- the reported prefix length is the fragment length — for every `lower`, fuzzy or not
+(this is the statement repaired by the `fix:` commit for F1; before it the code measured
+the length of the *lowered* fragment) -/
+theorem prefix_length_is_fragment_length (st : Settings) (lower : List Char → List Char)
+    (cands : List Cand) (like : List Char) (fuzzy : Bool) (imported : List (List Char)) (c : Comp)
+    (h : c ∈ filterNames st lower cands like fuzzy imported) :
+    c.prefixLength = like.length := by
+  have y := filterLoop_yielded _ _ _ _ _ _ _ _ _ h
+  rw [y.eq]; rfl
+
+/-- Non-fuzzy, case-insensitive (the default): the first `prefix_length` characters of the
+name are the fragment up to case.  The hypothesis `CharwiseLower` is forced (witness below). -/
 theorem prefix_is_fragment_partial (st : Settings) (lower : List Char → List Char)
     (cands : List Cand) (like : List Char) (imported : List (List Char)) (c : Comp)
     (hci : st.caseInsens = true) (hl : CharwiseLower lower)
     (h : c ∈ filterNames st lower cands like false imported)
     (hpub : c.cand.str <+: c.cand.pub) :
-    c.prefixLength = like.length ∧ lower (c.name.take c.prefixLength) = lower like := by
+    lower (c.name.take c.prefixLength) = lower like := by
   obtain ⟨f, hf⟩ := hl
-  have y := filterLoop_yielded _ _ _ _ _ _ _ _ h
+  have y := filterLoop_yielded _ _ _ _ _ _ _ _ _ h
   have hm := y.isMatch
   simp only [foldCase, hci, if_true, pmatch, Bool.false_eq_true, if_false,
     startMatch_iff_prefix] at hm
-  have hlen : c.prefixLength = like.length := by
-    rw [y.eq]; simp [Comp.prefixLength, mkComp, foldCase, hci, hf]
-  refine ⟨hlen, ?_⟩
+  have hlen : c.prefixLength = like.length := by rw [y.eq]; rfl
   rw [hlen, hf, hf]
   rw [hf, hf] at hm
   obtain ⟨suffix, hs⟩ := hpub
@@ -119,17 +125,17 @@ theorem prefix_is_fragment_partial (st : Settings) (lower : List Char → List C
   simp only [Comp.name, ← hs, List.take_append_of_le_length hle]
   rw [h1, List.map_take]
 
-/-- Witness that the hypothesis is needed (F1): a `lower` that maps one character to two
-(`İ` ↦ `i̇`) makes the reported prefix length differ from the fragment length. -/
+/-- Witness that `CharwiseLower` is needed: with a `lower` that maps `İ` to two code points,
+the name `i̇xyz` (i + combining dot) matches the fragment `İx`, but its first two characters
+do not lower-case to the lower-cased fragment. -/
 def lowerDotI (s : List Char) : List Char :=
   s.flatMap fun ch => if ch = 'İ' then ['i', '̇'] else [ch]
 
-theorem prefix_length_wrong_when_lower_changes_length :
-    ∃ c ∈ filterNames ⟨true, false⟩ lowerDotI [⟨"İxyz".toList, "İxyz".toList, false, false⟩]
+theorem fragment_claim_needs_charwise :
+    ∃ c ∈ filterNames ⟨true, false⟩ lowerDotI [⟨"i̇xyz".toList, "i̇xyz".toList, false, false⟩]
         "İx".toList false [],
-      c.prefixLength ≠ "İx".toList.length ∧ c.complete ⟨true, false⟩ = some "z".toList := by
-  refine ⟨mkComp (lowerDotI "İx".toList) false ⟨"İxyz".toList, "İxyz".toList, false, false⟩, ?_, ?_, ?_⟩
-  · decide
+      lowerDotI (c.name.take c.prefixLength) ≠ lowerDotI "İx".toList := by
+  refine ⟨mkComp 2 false ⟨"i̇xyz".toList, "i̇xyz".toList, false, false⟩, ?_, ?_⟩
   · decide
   · decide
 
@@ -139,7 +145,7 @@ theorem prefix_length_wrong_when_lower_changes_length :
 theorem completion_nodup (st : Settings) (lower : List Char → List Char) (cands : List Cand)
     (like : List Char) (fuzzy : Bool) (imported : List (List Char)) :
     ((filterNames st lower cands like fuzzy imported).map (Comp.dedupKey st)).Nodup :=
-  filterLoop_nodup _ _ _ _ _ _ _
+  filterLoop_nodup _ _ _ _ _ _ _ _
 
 /-- ... nor in the sorted, API-visible list -/
 theorem completePython_nodup (comps : List String) (st : Settings) (lower : List Char → List Char)
@@ -154,11 +160,11 @@ theorem completion_no_loss (st : Settings) (lower : List Char → List Char) (ca
     (like : List Char) (fuzzy : Bool) (imported : List (List Char)) (x : Cand) (hx : x ∈ cands)
     (hm : pmatch (foldCase st lower x.str) (foldCase st lower like) fuzzy = true)
     (hi : ¬ (imported.contains x.str = true ∧ x.str ≠ foldCase st lower like)) :
-    (mkComp (foldCase st lower like) fuzzy x).dedupKey st ∈
+    (mkComp like.length fuzzy x).dedupKey st ∈
       (filterNames st lower cands like fuzzy imported).map (Comp.dedupKey st) ∨
-    ∃ d ∈ cands, d.isDel = true ∧ (mkComp (foldCase st lower like) fuzzy d).dedupKey st =
-      (mkComp (foldCase st lower like) fuzzy x).dedupKey st := by
-  rcases filterLoop_complete st lower _ fuzzy imported cands [] x hx hm hi with h | h | h
+    ∃ d ∈ cands, d.isDel = true ∧ (mkComp like.length fuzzy d).dedupKey st =
+      (mkComp like.length fuzzy x).dedupKey st := by
+  rcases filterLoop_complete st lower _ _ fuzzy imported cands [] x hx hm hi with h | h | h
   · simp at h
   · exact Or.inl h
   · exact Or.inr h
@@ -222,7 +228,7 @@ example : ∃ c, c ∈ filterNames ⟨true, false⟩ (fun s => s.map Char.toLowe
     [⟨"Foo".toList, "Foo".toList, true, false⟩, ⟨"foo".toList, "foo=".toList, false, false⟩,
      ⟨"bar".toList, "bar".toList, false, false⟩] "fO".toList false [] ∧
     c.cand.str <+: c.cand.pub ∧ c.cand.pub = "foo=".toList := by
-  refine ⟨mkComp "fo".toList false ⟨"foo".toList, "foo=".toList, false, false⟩, by decide, ?_, rfl⟩
+  refine ⟨mkComp 2 false ⟨"foo".toList, "foo=".toList, false, false⟩, by decide, ?_, rfl⟩
   exact ⟨['='], rfl⟩
 
 example : CharwiseLower (fun s => s.map Char.toLower) := ⟨Char.toLower, fun _ => rfl⟩
